@@ -3,6 +3,7 @@
 package node
 
 import (
+	"github.com/youzan/ZanRedisDB/raft/raftpb"
 	"github.com/youzan/ZanRedisDB/transport/rafthttp"
 )
 
@@ -44,4 +45,9 @@ func (nd *KVNode) VerifRaftStorageIndexes() (first uint64, last uint64) {
 	first, _ = nd.rn.raftStorage.FirstIndex()
 	last, _ = nd.rn.raftStorage.LastIndex()
 	return
+}
+
+// VerifEntriesAfterSnapshot exposes the entry filter of replayWAL.
+func VerifEntriesAfterSnapshot(snapshot *raftpb.Snapshot, ents []raftpb.Entry) []raftpb.Entry {
+	return entriesAfterSnapshot(snapshot, ents)
 }
